@@ -533,6 +533,7 @@ def generate(repo, contracts, twin=False, only=None, force_degrade=None):
     MODHDR = "#[allow(unused_imports)] use vstd::prelude::*;\n#[allow(unused_imports)] use crate::vp::*;\n#[allow(unused_imports)] use crate::rfc::*;\n#[allow(unused_imports)] use vstd::string::*;\n#[allow(unused_imports)] use vstd::std_specs::iter::IteratorSpec;\n"
     parts = []
     parts.append("// GENERATED by /verif/vgen/vgen.py from the working tree of /repo -- do not edit\n"
+                 "#![feature(allocator_api)]\n"
                  "#![allow(unused_imports, dead_code, unused_variables, unused_mut, unused_assignments, unused_parens, unused_braces, non_snake_case, unreachable_code, unused_macros)]\n"
                  "use vstd::prelude::*;\n")
     parts.append("pub mod vp {\n" + prelude + "\n}\n")
